@@ -104,6 +104,7 @@ def h_diff(axk: int, axv: int, axk2: int, axv2: int, ays: int, ayk: int, ayv: in
     """
     vkopf.begin_path()
     c = vkopf.cell()
+    ays, bys, axk, bxk = vkopf.pin('ays', ays), vkopf.pin('bys', bys), vkopf.pin('axk', axk), vkopf.pin('bxk', bxk)
     a, b = _mk_pair(c['axs'], axk, axv, axk2, axv2, ays, ayk, ayv, c['bxs'], bxk, bxv, bxk2, bxv2, bys, byk, byv)
     d = diffs.diff(a, b)
     ok = True
@@ -321,13 +322,16 @@ def h_other_operator(p0: int, p1: int, has_ann: bool, which: int, spec_v: int) -
 
 def obligations():
     obs = []
+    # diffs: quick = a sample of shape cells (split further by the presence of the second key), thorough = all shapes
+    for (axs, bxs) in ((1, 2), (2, 2), (2, 1)):
+        obs += split(Ob('h_diff', {'axs': axs, 'bxs': bxs}, tiers=('quick',), timeout=600), ays=[0, 1], bys=[0, 1])
+    obs.append(Ob('h_diff', {'axs': 2, 'bxs': 2}, tiers=('quick', 'thorough'), timeout=300, twins=['empty_diff'], main=False))
     for axs in (0, 1, 2):
         for bxs in (0, 1, 2):
-            quick = (axs, bxs) in ((1, 2), (2, 2), (2, 1), (1, 1))
-            obs.append(Ob('h_diff', {'axs': axs, 'bxs': bxs}, tiers=('quick', 'thorough') if quick else ('thorough',),
-                          timeout=1200, twins=['empty_diff'] if (axs, bxs) == (2, 2) else []))
+            obs.append(Ob('h_diff', {'axs': axs, 'bxs': bxs}, tiers=('thorough',), timeout=1200))
     for axs, bxs in ((3, 3), (3, 2), (2, 3), (3, 1), (1, 3), (3, 0), (0, 3)):
-        obs.append(Ob('h_diff', {'axs': axs, 'bxs': bxs, 'paths': [['a'], ['a', 'c'], ['a', 'd'], ['b']]}, tiers=('thorough',), timeout=3400))
+        obs += split(Ob('h_diff', {'axs': axs, 'bxs': bxs, 'paths': [['a'], ['a', 'c'], ['a', 'd'], ['b']]}, tiers=('thorough',), timeout=3000),
+                     ays=[0, 1], bys=[0, 1], axk=[0, 1, 2, 3, 4])
     obs.append(Ob('h_diff_boolint', {}, expect='counterexample', finding='F7', timeout=60))
     combos = [('annotations', 'annotations', True, 'kopf.zalando.org'), ('annotations', 'annotations', False, 'my.op.io'),
               ('status', 'status', True, 'kopf.zalando.org'), ('smart', 'multi', True, 'kopf.zalando.org'),
@@ -335,9 +339,13 @@ def obligations():
               ('status', 'annotations', True, 'my.op.io'), ('smart', 'annotations', False, 'a')]
     for i, (pk, dk, v1, prefix) in enumerate(combos):
         cell = {'progress': pk, 'diffbase': dk, 'v1': v1, 'prefix': prefix}
-        tiers = ('quick', 'thorough') if i in (0, 3, 4) else ('thorough',)
-        obs += split(Ob('h_own_writes', cell, tiers=tiers, timeout=900, twins=['patched'] if i == 0 else []), which=[0, 1, 2, 3, 4, 5])
-        obs.append(Ob('h_noise_and_signal', cell, tiers=tiers, timeout=900, twins=['signal'] if i == 0 else []))
+        quick = i in (0, 4)
+        obs += split(Ob('h_own_writes', cell, tiers=('quick', 'thorough') if quick else ('thorough',), timeout=900,
+                        twins=['patched'] if i == 0 else []), which=[0, 1, 2, 3, 4, 5])
+        obs += split(Ob('h_noise_and_signal', cell, tiers=('quick', 'thorough') if quick else ('thorough',), timeout=900,
+                        twins=['signal'] if i == 0 else []), what=[0, 3, 7, 9, 12] if quick else list(range(14)))
+        if quick:
+            obs += split(Ob('h_noise_and_signal', cell, tiers=('thorough',), timeout=900), what=[1, 2, 4, 5, 6, 8, 10, 11, 13])
     obs.append(Ob('h_other_operator', {'progress': 'annotations', 'diffbase': 'annotations', 'v1': True}, timeout=900,
                   twins=['foreign_write', 'kopf_dot_prefix']))
     obs.append(Ob('h_other_operator', {'progress': 'smart', 'diffbase': 'multi', 'v1': False}, tiers=('thorough',), timeout=900))
